@@ -3,4 +3,6 @@ namespace OllamaVerif.Generated.C08
 /-- does `DiskCache.Link` in the tree rename a verified temporary file over the link (true), or copy in place
     with copyNamedFile's same-size shortcut (false, finding F8)? -/
 def linkFixed : Bool := true
+/-- does it refuse a zero-length blob file unless the digest is that of the empty string? -/
+def linkZeroCheck : Bool := false
 end OllamaVerif.Generated.C08
